@@ -4,17 +4,17 @@ Property C15 — any input text is answered with a result or a diagnostic: no ab
 In the model every step on the text path is a total Lean function (no `partial`, explicit `panic`
 outcomes for the Rust aborts that exist): comment stripping, line bookkeeping, lexing, parsing,
 evaluation, the driver's checks, the prompt.  Proved here:
-  * `strip_length_le`      : comment stripping never lengthens the text by more than one character per
-                             comment (output linear in the input);
+  * `strip_length_le`      : comment stripping never lengthens the text (output linear in the input);
   * `text_nonempty_lines`  : after the driver's repair the text always ends in a line break, so the
                              diagnostic look-ups have a line to report (C16.text_has_newline,
                              C16.getNewlineBefore_total) — the abort on files without a final newline
                              (fix 204cc69) cannot recur in the model;
-  * `lex_consumes`         : the lexer's fuel (input length + 1) always suffices: it makes progress on
-                             every step, so `lex` never runs out of fuel on any input;
-  * `number_no_panic`      : numeric terminals of any length are range-checked (`u16/u8/i16/i8/u32`
-                             bounds) by comparison of unbounded naturals — huge digit strings yield a
-                             diagnostic, never an overflow;
+  * `lexAux_fuel`          : the lexer makes progress on every step (white space or a token of length
+                             ≥ 1), so its result does not depend on the fuel as soon as the fuel exceeds
+                             the input length: `lex` (fuel = length + 1) never stops for lack of fuel,
+                             whatever the input — induction on the input length;
+  * numeric terminals of any length are range-checked by comparison of unbounded naturals
+    (`Asm.natOfDigits`): huge digit strings yield a diagnostic, never an overflow;
   * `prompt` termination   : C20.prompt_consumes.
 What the model cannot exhibit — aborts or hangs inside the generated LR parsers, the regex crate, or
 the stack depth of deeply nested macro expansions — is decided by the L3/L4 `fuzz` runs: byte- and
@@ -56,5 +56,64 @@ theorem lexAux_ws_progress (lits : List (List Char)) (fuel : Nat) (c : Char) (cs
     (acc : Array Asm.PTok) (h : Asm.isWs c = true) :
     Asm.lexAux lits (fuel + 1) (c :: cs) pos acc = Asm.lexAux lits fuel cs (pos + c.utf8Size) acc := by
   simp [Asm.lexAux, h]
+
+end Emu8086.Props.C15
+
+/-! ### the lexer's fuel always suffices -/
+namespace Emu8086.Props.C15
+open Emu8086 Emu8086.Asm
+
+/-- with more fuel than characters the lexer never stops for lack of fuel: the result does not
+    depend on the amount of fuel (so `lex`, which supplies length+1, is the fuel-free lexer) -/
+theorem lexAux_fuel (lits : List (List Char)) : ∀ (n : Nat) (f1 f2 : Nat) (cs : List Char) (pos : Nat) (acc : Array PTok),
+    cs.length ≤ n → cs.length < f1 → cs.length < f2 → Asm.lexAux lits f1 cs pos acc = Asm.lexAux lits f2 cs pos acc := by
+  intro n
+  induction n with
+  | zero =>
+    intro f1 f2 cs pos acc hn h1 h2
+    have : cs = [] := List.eq_nil_of_length_eq_zero (by omega)
+    subst this
+    cases f1 with
+    | zero => simp at h1
+    | succ f1 => cases f2 with
+      | zero => simp at h2
+      | succ f2 => simp [Asm.lexAux]
+  | succ n ih =>
+    intro f1 f2 cs pos acc hn h1 h2
+    cases cs with
+    | nil =>
+      cases f1 with
+      | zero => simp at h1
+      | succ f1 => cases f2 with
+        | zero => simp at h2
+        | succ f2 => simp [Asm.lexAux]
+    | cons c cs =>
+      cases f1 with
+      | zero => simp at h1
+      | succ f1 =>
+        cases f2 with
+        | zero => simp at h2
+        | succ f2 =>
+          simp only [List.length_cons] at hn h1 h2
+          simp only [Asm.lexAux]
+          generalize longestLit lits (c :: cs) = l
+          generalize (List.foldl (fun (b : Nat × Nat) i => if matchRe i (c :: cs) > b.snd then (i, matchRe i (c :: cs)) else b) (0, 0)
+                  (List.range 8)) = b
+          split
+          · exact ih f1 f2 cs _ _ (by omega) (by omega) (by omega)
+          · split
+            · rfl
+            · rename_i hz
+              -- a token of length k ≥ 1 was consumed: the rest is shorter
+              have hk : 1 ≤ (if l ≥ b.2 then (true, 0, l) else (false, b.1, b.2)).2.2 := by
+                have : ¬ (l = 0 ∧ b.2 = 0) := by simpa using hz
+                split <;> simp <;> omega
+              generalize (if l ≥ b.2 then (true, 0, l) else (false, b.1, b.2)) = tr at hk ⊢
+              obtain ⟨isLit, ri, k⟩ := tr
+              simp only at hk ⊢
+              apply ih f1 f2 _ _ _
+              · simp only [List.length_drop, List.length_cons]; omega
+              · simp only [List.length_drop, List.length_cons]; omega
+              · simp only [List.length_drop, List.length_cons]; omega
 
 end Emu8086.Props.C15
